@@ -24,6 +24,10 @@ def handleFmt (j : Json) : Json :=
     match formatAtlas p with
     | none => Json.mkObj [("err", "format")]
     | some f => (scanJson (Lex.scan true (parseOpts (obj j "opts")) f)).mergeObj (Json.mkObj [("file", hexL f)])
+  | "atlas-checkpoint" =>
+    match formatCheckpoint (bool j "fixed" true) p with
+    | none => Json.mkObj [("err", "format")]
+    | some f => (scanJson (Lex.scan true (parseOpts (obj j "opts")) f)).mergeObj (Json.mkObj [("file", hexL f)])
   | "up" =>
     (scanJson (roundTripUp p)).mergeObj (Json.mkObj [("file", hexL (formatUp p)), ("down", hexL (formatDown p)),
       ("downstmts", jstrs ((downStmts p).map hexL))])
